@@ -32,6 +32,29 @@ def scenario(prop, name, grid):
     return deco
 
 
+def unchanged_inputs(*names):
+    """decorator for scenario functions (placed BELOW @scenario): after the scenario body, every copy of the named inputs that was handed out by
+    ctx.input -- one of them is what the code under test received -- must still hold the pristine values: plain ndarray arguments (data matrices,
+    points, drift / diffusion) are not modified by the routines that only read them"""
+    def deco(fn):
+        import functools
+
+        @functools.wraps(fn)
+        def wrapped(ctx, *a, **k):
+            r = fn(ctx, *a, **k)
+            for nm in names:
+                copies = ctx.handed.get(nm, [])
+                if not copies or nm not in ctx.cache:
+                    continue
+                pristine = ctx.cache[nm]
+                flat = [c for c in copies if _np.shape(c) == _np.shape(pristine)]
+                if flat:
+                    ctx.eq('input array %r is left unchanged' % nm, ctx.cat(flat), ctx.cat([pristine] * len(flat)), tol=0.0)
+            return r
+        return wrapped
+    return deco
+
+
 class HarnessError(Exception):
     pass
 
@@ -82,6 +105,7 @@ class Ctx(object):
         self.obligations = []
         self.decl = {}          # name -> (shape, cplx, kwargs)
         self.cache = {}
+        self.handed = {}        # name -> every copy handed out by input() (see unchanged_inputs)
         self.assumptions = []   # z3 formulas about inputs (sym)
         self.used_inputs = {}
         self.stub_calls = 0
@@ -164,7 +188,9 @@ class Ctx(object):
                     if cplx:
                         a.kind = 'c'
                 self.cache[name] = a
-        return self.cache[name].copy()
+        out = self.cache[name].copy()
+        self.handed.setdefault(name, []).append(out)
+        return out
 
     def scalar(self, name, cplx=False, lo=None, hi=None, nonzero=False):
         a = self.input(name, (1,), cplx, lo, hi, nonzero)
